@@ -11,6 +11,7 @@ import (
 	"crypto/sha1"
 	"crypto/sha256"
 	"encoding/asn1"
+	"encoding/json"
 	"math/big"
 	"os"
 	"path/filepath"
@@ -106,13 +107,15 @@ func caPubKeyInfo(spkiDER []byte, keyID int64) []byte {
 	return tl(0x30, mustDER(oid.OidPkEcdh), spkiDER, derInt(keyID))
 }
 
-func buildFixtures() {
+func buildFixtures(withTrustStore bool) {
 	var err error
-	if trustStore, err = cms.DefaultMasterList(); err != nil {
-		panic("DefaultMasterList: " + err.Error())
-	}
-	if err = mobile.PreloadCscaCertPool(); err != nil {
-		panic("PreloadCscaCertPool: " + err.Error())
+	if withTrustStore {
+		if trustStore, err = cms.DefaultMasterList(); err != nil {
+			panic("DefaultMasterList: " + err.Error())
+		}
+		if err = mobile.PreloadCscaCertPool(); err != nil {
+			panic("PreloadCscaCertPool: " + err.Error())
+		}
 	}
 
 	// --- DG14 variants -----------------------------------------------------
@@ -479,12 +482,28 @@ func warmupBody() {
 		verifier.NewVerifier(trustStore).Verify(blob)
 		mobile.NewVerifier().Verify(blob)
 	}
-	for k := 0; k < nKinds; k++ {
-		callCtor(k, genuine[k])
-	}
-	if n, err := tlv.Decode(genuine[kDG14]); err == nil {
-		_ = n.String()
-	}
+	warmupLight()
+}
+
+// warmupLight: parsers, JSON encoders and Summary() once on the genuine files (no public-key work).
+func warmupLight() {
+	protect(func() {
+		var ex document.DocumentEx
+		for k := 0; k < nKinds; k++ {
+			if obj, err := callCtor(k, genuine[k]); err == nil && obj != nil {
+				json.Marshal(obj)
+				setFile(&ex.Document, obj)
+			}
+		}
+		json.Marshal(ex.Summary())
+		json.Marshal(&ex)
+		ex.Document.DgHashes()
+		ex.ToCbor()
+		if n, err := tlv.Decode(genuine[kDG14]); err == nil {
+			_ = n.String()
+			_ = n.Encode()
+		}
+	})
 }
 
 // ---- pools of valid evidence (public-key arithmetic is too slow to redo per case) ---------
